@@ -21,6 +21,14 @@ claimed = {
    text="Proof: n == len(p) on success for the zap writers under contract, Lock/AddSync/NewMultiWriteSyncer relay and wrapping rules, multi-WriteSyncer: same bytes to every sink, minimum count, all errors folded, Sync reaches every sink (loop invariants over a ghost call log, any number of sinks and outcome vectors).",
    note=BASE_NOTE + "User sinks are arbitrary (n, err) under the encapsulation rely; mutual exclusion for all interleavings follows from the proved lock discipline only by the (unmechanised) lock-invariant meta-theorem.",
    ref="7 (C13)"),
+ "C05": dict(
+   text="Proof per function: delivery iff enabled through ioCore/tee/level-filter/hooked/sampler Check (each verified against the Core.Check interface contract, which is the AddCore accumulation discipline), increase-level validation over all seven levels, LevelOf / tee / AtomicLevel / Logger.Level reports for all 256 int8 values, the Logger.check pre-check does nothing else (no clock read, no Check, no Write).",
+   note=BASE_NOTE + "Level enablers are functions of (enabler, level) within one verified call; user cores obey the Core.Check interface contract (encapsulation rely). Out-of-range levels under non-monotone enablers in an increase-level core: not proved.",
+   ref="7 (C05)"),
+ "C20": dict(
+   text="Proof: name tables of String/CapitalString for the seven levels, unmarshalText/UnmarshalText/Set/ParseLevel accept exactly the listed names (then lower-cased) and leave the target untouched on rejection, round-trip lemmas for all valid levels, AtomicLevel get/set for all int8 values, serveHTTP: SetLevel only after a successful decode of a PUT and to exactly the decoded level, 400/405 otherwise with the level unchanged.",
+   note=BASE_NOTE + "encoding/json, net/http and bytes.ToLower are assumed (the seven ToLower facts are executed as ground tests every run); what the JSON decoder accepts as well-formed is the library's behaviour.",
+   ref="7 (C20)"),
 }
 
 def git(*a):
